@@ -39,7 +39,7 @@ class RegBench:
                 chk.violation(f"deviating registration accepted ({label})", f"reg-accepts {label}", rp)
         if expect == "accept" and not il.startswith("OK"):
             chk.violation(f"conformant registration rejected ({label}): {il}", f"reg-rejects-valid {label} {il}", rp)
-        chk.count(("accept:" if il.startswith("OK") else "reject:") + label.split("+")[0])
+        chk.count(("accept:" if il.startswith("OK") else "reject:") + label.split("+")[0].split("/")[0])
         chk.seen((label, form, il[:40], pol.require_uv, pol.require_up, reg.cred.kind))
         return il, ml
 
